@@ -226,6 +226,9 @@ fn judge_program(ctx: &mut WorkerCtx, p: &Plan, code: &[u8]) {
                                 if known {
                                     class = "never-finishes".to_string();
                                     detail = "listed: interrupted at every finite rung".to_string();
+                                } else if !diff::may_confirm_hang() {
+                                    class = "never-finishes".to_string();
+                                    detail = "interrupted at every finite rung up to 4096*B0 (2^62 run skipped after several confirmed cases in this worker)".to_string();
                                 } else {
                                     ctx.count("executions", 1);
                                     match diff::run_isolated(&comp, Mode::Limited(big), script, canon.trace.len() + 4, None, true, Arm::default(), 2000) {
